@@ -10,7 +10,7 @@
 From Coq Require Import List NArith.
 From Coq Require Import Permutation.
 From Jamm Require Import Bytes Codec Tree Spec Cursor SearchFacts CursorFacts SeekFacts CodecFacts.
-From Jamm Require Engine EngineFacts.
+From Jamm Require Engine EngineFacts EngineMergeFacts.
 Import ListNotations.
 
 Theorem C01_partial_get : forall t k, wf_tree t = true ->
@@ -62,3 +62,28 @@ Theorem C01_partial_split_keeps_entries : forall s d d0 rest, Engine.split s d =
   concat (map EngineFacts.ents_of (d0 :: rest)) = EngineFacts.ents_of d /\ Forall (fun p => Engine.is_leaf p = Engine.is_leaf d) (d0 :: rest).
 Proof. exact EngineFacts.split_concat. Qed.
 Print Assumptions C01_partial_split_keeps_entries.
+
+(* rebalance, one step: a child that does not need merging is only re-attached (nothing freed, nothing allocated) ... *)
+Theorem C01_partial_merge_step_noop : forall d par k s,
+  Engine.needs_merging s k = false ->
+  Engine.try_merge d par k s = Engine.Ok (Engine.set_kids par (Engine.replace_kid (Engine.n_kids par) k), s).
+Proof. exact EngineMergeFacts.try_merge_noop. Qed.
+Print Assumptions C01_partial_merge_step_noop.
+
+(* ... and merging a child into its materialised left sibling removes exactly its branch entry, frees exactly its
+   page, and leaves the entries the transaction sees below the parent a permutation of what they were (with
+   C01_partial_merge_keeps_entries: the same list, since both sides are sorted) *)
+Theorem C01_partial_merge_step_left : forall fuel d par k s es ok idx kq q sb md ko par' s',
+  Engine.needs_merging s k = true -> Engine.n_data par = Engine.Branches es -> (0 < Engine.dlen (Engine.n_data k))%N ->
+  Engine.n_orig k = Some ok -> Engine.bsearch (map fst es) ok = (true, idx) -> (0 < idx)%N ->
+  Engine.nthN es (idx - 1) = Some (kq, q) -> Engine.find_kid q (Engine.n_kids par) = Some sb ->
+  Engine.merge_data (Engine.n_data sb) (Engine.n_data k) = Engine.Ok md ->
+  Engine.nthN es idx = Some (ko, Engine.n_page k) ->
+  Engine.find_kid (Engine.n_page k) (Engine.n_kids par) = Some k ->
+  NoDup (map snd es) -> NoDup (map Engine.n_seq (Engine.n_kids par)) ->
+  (forall x, In x (Engine.n_kids k) -> ~ In (Engine.n_page x) (EngineMergeFacts.dpages (Engine.n_data sb))) ->
+  (forall x, In x (Engine.n_kids sb) -> ~ In (Engine.n_page x) (EngineMergeFacts.dpages (Engine.n_data k))) ->
+  Engine.try_merge d par k s = Engine.Ok (par', s') ->
+  Permutation (EngineMergeFacts.view_leaves fuel d par') (EngineMergeFacts.view_leaves fuel d par).
+Proof. exact EngineMergeFacts.try_merge_left_view. Qed.
+Print Assumptions C01_partial_merge_step_left.
